@@ -1,11 +1,15 @@
 #!/bin/sh
-# usage: try_patch.sh <patch.diff> [ids...]   applies the patch to /repo, runs the checks, reverts the patch. Prints one line per check.
+# usage: try_patch.sh <patch.diff> [ids...]   applies the patch to /repo, runs the checks (in parallel), reverts the patch.
+# Prints one line per check.
 p=$1; shift
 ids="$@"; [ -z "$ids" ] && ids="C01 C02 C03 C04 C05 C06 C07 C08 C09 C10 C11 C12 C13 C14 C15 C16 C17 C18 C19 C20"
 git -C /repo apply "$p" || { echo "PATCH DOES NOT APPLY"; exit 3; }
-for i in $ids; do
-  out=$(VERIF_EVIDENCE_DIR=/tmp/try_evidence /verif/check $i 2>&1); rc=$?
-  echo "$i rc=$rc $(echo "$out" | grep -E '^  FAIL|ANALYSIS-ERROR' | head -4 | tr '\n' ' ' | cut -c1-300)"
-done
+one() {
+  out=$(VERIF_EVIDENCE_DIR=/tmp/try_evidence/$1 /verif/check $1 2>&1); rc=$?
+  echo "$1 rc=$rc $(echo "$out" | grep -E '^  FAIL|ANALYSIS-ERROR' | head -4 | tr '\n' ' ' | cut -c1-300)"
+}
+for i in $ids; do one $i > /tmp/try_out_$i.txt & done
+wait
+for i in $ids; do cat /tmp/try_out_$i.txt; rm -f /tmp/try_out_$i.txt; done
 git -C /repo checkout -- bioscrape lineage
 rm -rf /tmp/try_evidence
